@@ -16,6 +16,13 @@ RESULTS = {
  "C09": ("caught", ["C09"], ""),
  "C10": ("missed", ["C10"], "streams of <=4 items never queue more than 3 firings; a long-stream family (12 items, producer far ahead of the worker) was added, and a reproducible scheduler stall (an item that was sent never reaches the worker) became a verdict"),
  "C11": ("missed", ["C11"], "the check covered SingleThread only; hook H1 was extended (named channels, coordinator thread, timed-receive expiry as a scheduling choice) and a MultiThread family over policies Wait/Steal/Timeout+Steal/Timeout+Drop was added"),
+ "C13": ("caught", ["C13"], ""),
+ "C14": ("caught", ["C14"], ""),
+ "C15": ("caught", ["C15"], ""),
+ "C16": ("missed", ["C16"], "no seed, token or generated literal contained a numeric escape; a literal escape matrix (every escape kind followed by closing quote / ASCII / multi-byte / another escape, as triple object, FILTER operand and VALUES term), unicode-escape tokens and seeds were added"),
+ "C17": ("caught", ["C17"], ""),
+ "C18": ("caught", ["C18"], ""),
+ "C19": ("caught", ["C19"], ""),
  "C12": ("missed", ["C12"], "no rule set concluded into a window component; rule set 'xwin' (w2:p => w1:p) was added, so a listed fact can also be derived from a longer-lived listing"),
 }
 
